@@ -40,7 +40,11 @@ def types_for(tier):
 def shards(tier, seed):
     ts = types_for(tier)
     ts = ts[seed % len(ts):] + ts[: seed % len(ts)]
-    return cons.chunk(ts, 64 if tier == "quick" else 128)
+    out = cons.chunk(ts, 64 if tier == "quick" else 128)
+    # array classes GIVEN A NAME by subclassing (class Line(xo.Ref[Elem][:]): pass): the copy rules are those of the base
+    U = universe
+    out.append(("named-subclass", [U.A2_REFARR, U.A2_UREF, xt.Arr(xt.Ref(U.S_S), (None,)), xt.St(U.A2_REFARR, xt.STR), U.A_DD, U.A2_STRUCT, xt.Arr(xt.Ref(U.A_DS), (2,))]))
+    return out
 
 
 class Pair:
@@ -212,7 +216,7 @@ def run_case(t, vmode, dest, tier, res, seed):
     v = xt.gen(t, vmode)
     f = cons.feats(t, vmode, "xobj", dest)
     f["dest"] = dest
-    cid = dict(type=t, type_str=xt.show(t), vmode=vmode, dest=dest, writes=[])
+    cid = dict(type=t, type_str=xt.show(t), vmode=vmode, dest=dest, writes=[], decl=xt.DECL[0])
     try:
         p = build(t, v, dest, [])
     except Exception as e:
@@ -274,6 +278,9 @@ def run_case(t, vmode, dest, tier, res, seed):
 
 def run_shard(types, tier, seed):
     res = common.ShardResult()
+    if isinstance(types, tuple) and types[0] == "named-subclass":
+        xt.DECL[0] = "named-subclass"  # this process only
+        types = types[1]
     for t in types:
         modes = VMODES if xt.has_refs(t) else ["ramp"] + (["extreme"] if tier == "thorough" else [])
         for vmode in modes:
@@ -287,6 +294,7 @@ def run_shard(types, tier, seed):
 
 def replay(case):
     t = xt.retuple(case["type"])
+    xt.DECL[0] = case.get("decl", "index")
     v = xt.gen(t, case["vmode"])
     res = common.ShardResult()
     ws = []
